@@ -1220,6 +1220,26 @@ def schema_contracts(specs):
             static.append(('%s.token_table[%d].line_col' % (s['id'], pos), ok_lc,
                            'line/column %d:%d belong to offset %d' % (ln, col, pos),
                            {'template': src, 'entry': [pos, txt, ln, col]}))
+        # MacroC (what a caller may assume of a render function that raises): the function-level
+        # exception handler only records the failing site -- it never removes or replaces what is
+        # already on the caller's stream (an enclosing tal:on-error cuts the stream back to ITS mark)
+        bad = []
+        for fname_, fdef in em.functions.items():
+            for t in [x for x in fdef.body if isinstance(x, ast.Try)]:
+                for h in t.handlers:
+                    for n in ast.walk(ast.Module(body=h.body, type_ignores=[])):
+                        if isinstance(n, ast.Delete) and any('__stream' in ast.unparse(x) for x in n.targets):
+                            bad.append('%s: %s' % (fname_, ast.unparse(n)))
+                        if isinstance(n, ast.Assign) and any('__stream' in ast.unparse(x) for x in n.targets):
+                            bad.append('%s: %s' % (fname_, ast.unparse(n)))
+                        if isinstance(n, ast.Call) and isinstance(n.func, ast.Attribute) and \
+                                '__stream' in ast.unparse(n.func.value) and \
+                                n.func.attr in ('clear', 'pop', 'remove', 'insert', 'reverse', 'sort', '__delitem__',
+                                                '__setitem__'):
+                            bad.append('%s: %s' % (fname_, ast.unparse(n)))
+        static.append(('%s.handler.stream_frame' % s['id'], not bad,
+                       'the exception handler of every emitted render function leaves the output stream '
+                       'as it is (modifies nothing of __stream)', {'template': s['text'], 'statements': bad}))
         c = Contract('k3::%s' % s['id'], params={}, source=(em.schema_text(), 'schema'),
                      kind='K3', ensures=s.get('ensures', []), raises=s.get('raises', {}),
                      loops=s.get('loops', {}), serves=s.get('serves', []),
